@@ -89,6 +89,7 @@ def run(ctx):
     ctx.do(rule_copy_complete)
     ctx.do(rule_mask_arithmetic)
     ctx.do(rule_absorption_same_connective)
+    ctx.do(rule_repeats_does_not_distribute)
     ctx.do(rule_changed_flag)
     ctx.do(rule_flag_returned)
     ctx.do(rule_lexicographic_chains)
@@ -1025,3 +1026,48 @@ def rule_absorption_same_connective(ctx):
                       function=fi.qualname, expected="type(%s) is type(%s) on the way to the call" % tuple(roots), found=[norm(t) for t, pol, _ in guard_chain(c)][-3:])
     if n < 2:
         raise AnalysisError("fewer than 2 containment tests found in the observation absorption (%d)" % n)
+
+
+def rule_repeats_does_not_distribute(ctx, R="C09.pipeline"):
+    """A qualifier applied to several pieces of an expression is a DISTRIBUTION law.  WITHIN and START/STOP distribute over OR;
+    REPEATS n TIMES does not: ([a] OR [b]) REPEATS 2 TIMES matches the observations a, b -- neither ([a] REPEATS 2 TIMES) nor
+    ([b] REPEATS 2 TIMES) does.  In the equivalence transformers, every construction of a qualified expression inside a loop /
+    comprehension over the operands of another expression (one qualifier, many pieces) stands under a test of the qualifier's
+    class that excludes RepeatQualifier.  The pinned tree has no such construction at all (the rule is a who-may-distribute
+    rule; its canary adds one)."""
+    run = ctx.run
+    prog = ctx.prog
+    n = 0
+    k_ = 0
+    mods = [m for m in prog.modules.values() if m.name.startswith("stix2.equivalence.pattern")]
+    if len(mods) < 5:
+        raise AnalysisError("equivalence modules not found")
+    for fi in sorted((f for f in prog.functions.values() if f.module in mods), key=lambda f: f.id):
+        for c in body_walk(fi.node):
+            if not (isinstance(c, ast.Call) and call_simple_name(c) == "QualifiedObservationExpression"):
+                continue
+            n += 1
+            # is the construction repeated over the operands of something?
+            over = None
+            p_ = getattr(c, "parent", None)
+            while p_ is not None and p_ is not fi.node:
+                if isinstance(p_, (ast.ListComp, ast.GeneratorExp, ast.SetComp)):
+                    over = next((g_.iter for g_ in p_.generators if "operands" in norm(g_.iter)), over)
+                if isinstance(p_, ast.For) and "operands" in norm(p_.iter):
+                    over = p_.iter
+                p_ = getattr(p_, "parent", None)
+            if over is None:
+                continue
+            k_ += 1
+            gc = guard_chain(c)
+            excl = any(("RepeatQualifier" in norm(t) and "isinstance" in norm(t)) and
+                       ((not pol and not norm(t).startswith("not ")) or (pol and norm(t).startswith("not "))) for t, pol, _ in gc)
+            run.check(excl, R, key(fi.module.relpath, fi.qualname, "qualifier-distributed#%d" % k_),
+                      "one qualifier is applied to each operand of an expression (a distribution law) without excluding REPEATS: "
+                      "(A OR B) REPEATS n TIMES is not (A REPEATS n TIMES) OR (B REPEATS n TIMES) -- two patterns with different "
+                      "meaning are normalised to one form and reported equivalent", file=fi.module.relpath, line=c.lineno,
+                      function=fi.qualname, expected="only under `not isinstance(<qualifier>, RepeatQualifier)`",
+                      found="%s over %s" % (short(c, 70), short(over, 40)))
+    if n < 1:
+        raise AnalysisError("no construction of a qualified expression found in the equivalence transformers: anchors lost")
+    run.ok(R, key("stix2/equivalence/pattern", "<transformers>", "qualifier-constructions-examined"))
